@@ -15,6 +15,7 @@ pub mod c14;
 pub mod c16;
 pub mod c18;
 pub mod c19;
+pub mod simprops;
 
 pub fn run(prop: &str, ctx: &mut Ctx) -> Result<(), String> {
     match prop {
@@ -26,6 +27,12 @@ pub fn run(prop: &str, ctx: &mut Ctx) -> Result<(), String> {
         "C16" => c16::run(ctx),
         "C18" => c18::run(ctx),
         "C19" => c19::run(ctx),
+        "C05" => simprops::run_c05(ctx),
+        "C06" => simprops::run_c06(ctx),
+        "C11" => simprops::run_c11(ctx),
+        "C12" => simprops::run_c12(ctx),
+        "C15" => simprops::run_c15(ctx),
+        "C17" => simprops::run_c17(ctx),
         _ => return Err(format!("unknown property {}", prop)),
     }
     Ok(())
